@@ -200,7 +200,7 @@ def _idx_kind(eng, st, sl):
     if isinstance(v, Mat) or (isinstance(v, Ref) and st.heap[v.oid].ndim == 2):
         m = as_mat(eng, st, v)
         if m.esort == BOOL:
-            return ('mask2', m)
+            return ('mask2', m, v)
         raise OutOfSubset('2-D integer index array')
     if isinstance(v, Opaque) and v.kind == 'trilidx':
         return ('trilidx', v)
@@ -331,6 +331,10 @@ def getitem(eng, st, base, sl):
         if k0[0] == 'int' and k1[0] == 'fancy':
             f = k1[1]
             return Row(f.n, lambda q, m=m, f=f, x=k0[1]: m.fn(x, f.fn(q)), m.esort)
+        if k0[0] == 'fancy' and k1[0] == 'int':
+            f = k0[1]
+            bounds(eng, st, k1[1], m.shape[1], 'readcol:%s' % ast.unparse(sl)[:24])
+            return Row(f.n, lambda q, m=m, f=f, y=k1[1]: m.fn(f.fn(q), y), m.esort)
         if k0[0] == 'int' and k1[0] == 'mask':
             # M[x, mask]: the entries of row x where the mask holds; only its size and its minimum are modelled
             mk = k1[1]
@@ -452,6 +456,22 @@ def setitem(eng, st, base, sl, val, node):
             return
         if kind[0] == 'mask2':
             mk = kind[1]
+            if isinstance(val, (Ref, Row)) and ndim_of(eng, st, val) == 1:
+                # M[mask] = values: the e-th true cell in row-major order receives values[e].  np.where(mask) enumerates the true cells in the
+                # same order; if it was taken of this very mask object (contents unchanged since), its index function widx(x, y) is the
+                # position of cell (x, y) in that enumeration.  Otherwise the position function is an unconstrained fresh function.
+                mv = kind[2]
+                wid = None
+                if isinstance(mv, Ref):
+                    for ob in st.heap.values():
+                        src_ = ob.meta.get('where_src') if ob.meta else None
+                        if src_ is not None and src_[0] == mv.oid and src_[1].eq(st.heap[mv.oid].term) and ob.meta.get('where_idx') is not None:
+                            wid = ob.meta['where_idx']
+                if wid is None:
+                    wid = z3.Function('maskpos!%d' % next(core._fresh), INT, INT, INT)
+                r = as_row(eng, st, val)
+                o.term = define2(st, o.esort, lambda x, y: z3.If(z3.And(x >= 0, x < to_z3(o.shape[0], INT), y >= 0, y < to_z3(o.shape[1], INT), truth(mk.fn(x, y))), to_z3(r.fn(wid(x, y)), o.esort), z3.Select(z3.Select(old, x), y)))
+                return
             if isinstance(val, (Ref, Row, Mat)):
                 raise OutOfSubset('2-D masked store of an array')
             v = to_z3(val, o.esort)
@@ -615,7 +635,8 @@ def np_where(eng, st, args, kw, node):
                                                   z3.And(wx >= 0, wx < k, z3.Select(it, wx) == x, z3.Select(jt, wx) == y)), patterns=[widx(x, y)]))
         wid_ = next(core._fresh)
         cond = (lambda xx, yy, m=m: m.fn(xx, yy))
-        ri = alloc(st, 1, it, (k,), INT, {'where_idx': widx, 'where_id': wid_, 'where_cond': cond})
+        src_ = (v.oid, st.heap[v.oid].term) if isinstance(v, Ref) else None      # the mask object and its contents when np.where was taken
+        ri = alloc(st, 1, it, (k,), INT, {'where_idx': widx, 'where_id': wid_, 'where_cond': cond, 'where_src': src_})
         rj = alloc(st, 1, jt, (k,), INT, {'where_id': wid_})
         return TupleV((ri, rj))
     r = as_row(eng, st, v)
@@ -786,6 +807,27 @@ def np_tile(eng, st, args, kw, node):
         raise OutOfSubset('np.tile form')
     r = as_row(eng, st, args[0])
     return Mat((reps[0], r.n), lambda x, y, r=r: r.fn(y), r.esort)
+
+
+def np_atleast_2d(eng, st, args, kw, node):
+    v = args[0]
+    if ndim_of(eng, st, v) == 2:
+        return v
+    if ndim_of(eng, st, v) == 1:
+        r = as_row(eng, st, v)
+        return Mat((1, r.n), lambda x, y, r=r: r.fn(y), r.esort)
+    raise OutOfSubset('np.atleast_2d of a scalar')
+
+
+def np_isclose(eng, st, args, kw, node):
+    """np.isclose(a, b, rtol=r, atol=0) under the contract option isclose_exact: a == b (exact real arithmetic; the relative tolerance only
+    absorbs rounding error, which the real-number model does not have).  Equal infinities compare close, as in numpy."""
+    if not getattr(eng.c, 'isclose_exact', False):
+        raise OutOfSubset('np.isclose (floating-point tolerance) without the contract option isclose_exact')
+    if kw.get('atol', None) != 0 or len(args) != 2:
+        raise OutOfSubset('np.isclose form (atol must be 0)')
+    r = elementwise2(eng, st, lambda a, b: to_z3(a, REAL) == to_z3(b, REAL), args[0], args[1], esort=BOOL)
+    return r
 
 
 def np_repeat(eng, st, args, kw, node):
@@ -1344,7 +1386,9 @@ def method(eng, st, obj, name, args, kw, node):
         t = args[0]
         if (isinstance(t, Opaque) and t.kind == 'builtin' and t.name == 'float') or t == 'float':
             if not _is_real(eng, st, obj):
-                return elementwise(eng, st, lambda q: to_z3(q, REAL), obj)
+                r_ = elementwise(eng, st, lambda q: to_z3(q, REAL), obj)
+                r_.esort = REAL          # (elementwise keeps the element sort of its operand: a bool / int array must become a real one here)
+                return r_
             if isinstance(obj, Ref):        # astype copies (copy=True is the default): a fresh array with the same contents
                 o = st.heap[obj.oid]
                 return alloc(st, o.ndim, o.term, o.shape, o.esort)
